@@ -169,9 +169,6 @@ def C02(m, rnd):
     except Exception as e:
         col.add("harness:to_reference-raises", exc(e))
         return col.result()
-    if C.carries_unknown(m):
-        # to_reference does not copy unknown fields; value comparison only
-        pass
     try:
         d = cls().parse(raw)
     except Exception as e:
